@@ -182,7 +182,10 @@ class Framer(tasking.Tasker):
 
     def prune(self):
         """
-        Recursively Prune (destroy) all insular auxiliary clones in all frames
+        Recursively Prune (destroy) all auxiliary clones, insular and named,
+        in all frames. A clone of a clone has this framer's frame as its fixed
+        main so it can never run again once this framer is destroyed and its
+        registered name would block rearing this framer's name again.
         Force exit if not done
         Called by Razer Actor when razing insular auxes from frame
         """
@@ -191,7 +194,7 @@ class Framer(tasking.Tasker):
             self.exitAll()
 
         for frame in self.frameNames.values():
-            prunables = [aux for aux in frame.auxes if aux.insular]
+            prunables = [aux for aux in frame.auxes if not aux.original]
             for aux in prunables:
                 aux.prune()
                 frame.auxes.remove(aux)
